@@ -235,6 +235,13 @@ func ccUnhex(s string) []byte {
 	return b
 }
 
+func ccHex(b []byte) string {
+	if len(b) == 0 {
+		return "-"
+	}
+	return hex.EncodeToString(b)
+}
+
 func ccAtoi(s string) int {
 	n, err := strconv.Atoi(s)
 	if err != nil {
@@ -406,7 +413,8 @@ func (c *clientConn) snapshot() string {
 						stc = strconv.Itoa(int(r.s.Status().Code()))
 					}
 					if rc == -1 {
-						term = "eof/" + stc
+						// the RPC takes Status(): code and message (hex; percent-decoded grpc-message for trailers)
+						term = "eof/" + stc + "/m" + ccHex([]byte(r.s.Status().Message()))
 					} else {
 						term = strconv.Itoa(rc) + "/" + stc
 					}
